@@ -10,7 +10,7 @@ import CifModel.Model.StoreStep
     * a failure INSIDE (a statement returns a hard error, an allocation fails, COMMIT fails) goes to the function's failure
       handler, which executes ROLLBACK / ROLLBACK_NESTTX / ROLLBACK_TO and returns CIF_ERROR or CIF_MEMORY_ERROR; for the
       one-statement functions SQLite itself undoes the failing statement.
-  `stepFaultAt` is that behaviour; `stepFault w op k` places the fault at micro-step `k` of a per-op layout (beyond the last
+  `stepFaultAt` is that behaviour (the partial effect of the statements executed before the failure is an arbitrary database `mid`); `stepFault w op k` places the fault at micro-step `k` of a per-op layout (beyond the last
   micro-step the op runs without fault).  Handle tables are not touched by a faulted call (it returns no handle).
   cif_create / cif_destroy and cif_pktitr_close / cif_pktitr_abort are not covered here (`closeFault` states the latter).
 -/
@@ -37,25 +37,56 @@ def target (w : World) : Op → Option (Nat × Store)
   | .addItem l n _ => if n.isNone then none else (w.liveL l).map (fun p => (p.1.cif, p.2))
   | .itNext i | .itUpd i _ | .itRem i => (w.liveI i).map (fun p => (p.1.cif, p.2))
 
-/-- functions bracketed by BEGIN_NESTTX (or SAVE, in the iterator): their failure handler runs ROLLBACK_NESTTX / ROLLBACK_TO -/
-def nestClass : Op → Bool
-  | .mkLoop .. | .loops _ | .names _ | .addItem .. | .addPkt .. | .itOpen _ | .itUpd .. | .itRem _ => true
-  | _ => false
+/-- how the op's function brackets its statements (Gen.Schema.txUses, `C05_paths_link`) -/
+inductive TxClass where
+  | top      -- BEGIN … COMMIT, failure handler: ROLLBACK
+  | nest     -- BEGIN_NESTTX … COMMIT_NESTTX / ROLLBACK_NESTTX
+  | save     -- SAVE … RELEASE, failure handler: ROLLBACK_TO (the iterator's update / remove)
+  | opening  -- cif_loop_get_packets: get_names (BEGIN_NESTTX … ROLLBACK_NESTTX), then BEGIN, failure handler: ROLLBACK
+  | stmt     -- one statement, no bracket: SQLite undoes the failing statement
+deriving Repr, Inhabited, DecidableEq
 
-/-- the store after the failure handler of the op's function ran -/
-def recover (op : Op) (s : Store) : Store :=
-  if nestClass op then (s.nestRO (fun _ => (Except.error CIF_ERROR : Except Code Unit))).1 else s
+def txClass : Op → TxClass
+  | .mkBlock .. | .mkFrame .. | .setVal .. | .rmItem .. => .top
+  | .mkLoop .. | .loops _ | .names _ | .addItem .. | .addPkt .. => .nest
+  | .itUpd .. | .itRem _ => .save
+  | .itOpen _ => .opening
+  | _ => .stmt
+
+/-- the store after a failure INSIDE the op's function: the function ran its transaction statement, executed some of its statements
+    — which left the database in SOME state `mid`, about which nothing is assumed — hit the failure and ran its failure handler
+    (ROLLBACK / ROLLBACK_NESTTX / ROLLBACK_TO on the transaction stack).  `failPath_same` proves from the transaction semantics that
+    the content is what it was, whatever `mid` is. -/
+def failPath (op : Op) (s : Store) (mid : Db) : Store :=
+  match txClass op with
+  | .top =>
+    match s.begin with
+    | none => s                                   -- BEGIN itself fails inside a transaction: nothing was touched
+    | some s1 => (({ s1 with db := mid } : Store).rollback).getD s1
+  | .nest =>
+    let (s1, top) := s.beginNest
+    ({ s1 with db := mid } : Store).rollbackNest top
+  | .save =>
+    -- outside a transaction the iterator calls return CIF_INVALID_HANDLE before anything else
+    if s.autocommit then s else (({ s.save with db := mid } : Store).rollbackTo).getD s.save
+  | .opening =>
+    let s0 := (s.nestRO (fun _ => (Except.ok () : Except Code Unit))).1
+    match s0.begin with
+    | none => s0
+    | some s1 => (({ s1 with db := mid } : Store).rollback).getD s1
+  | .stmt => s
 
 def faultCode (mem : Bool) : Code := if mem then CIF_MEMORY_ERROR else CIF_ERROR
 
-def stepFaultAt (w : World) (op : Op) : FaultAt → World × Result
+def stepFaultAt (w : World) (op : Op) (fa : FaultAt) (mid : Db := {}) : World × Result :=
+  match fa with
   | .none => step w op
   | .before m => match target w op with
     | none => step w op
     | some _ => (w, { rc := some (faultCode m) })
   | .inside m => match target w op with
     | none => step w op
-    | some (c, s) => (w.setCif c (recover op s), { rc := some (faultCode m) })
+    | some (c, s) => (w.setCif c (failPath op s mid), { rc := some (faultCode m) })
 
 /-- statements (and the allocations between them) an op executes inside its transaction bracket, at most -/
 def stmts : Op → Nat
@@ -72,7 +103,7 @@ def faultAt (op : Op) (k : Nat) : FaultAt :=
   if k < 2 then .before (k == 0) else if k == 2 then .before false
   else if k < 4 + 2 * stmts op then .inside (k % 2 == 1) else .none
 
-def stepFault (w : World) (op : Op) (k : Nat) : World × Result := stepFaultAt w op (faultAt op k)
+def stepFault (w : World) (op : Op) (k : Nat) (mid : Db := {}) : World × Result := stepFaultAt w op (faultAt op k) mid
 
 /-- cif_pktitr_close when COMMIT fails: CIF_ERROR and ROLLBACK — the changes made through the iterator are lost (the iterator
     is released either way) -/
